@@ -828,6 +828,8 @@ func (f *Frame) enterLoop(li *loopInfo) {
 	}
 	// automatic range-index invariant 0 <= i <= len for rangeindex loops
 	f.autoInvariant(li, nil, true)
+	// per-iteration ghost flags start every iteration cleared
+	f.resetIterFlags(li)
 }
 
 func phiName(ph *ssa.Phi) string {
